@@ -51,11 +51,11 @@ type sched struct {
 	// releases counts lock.release operations per lock cell: a condWait-er re-checks
 	// its condition only after somebody has been inside a critical section of that lock
 	releases map[*Block]int
-	prefix  []int
-	pos     int
-	trace   []choicePoint
+	prefix   []int
+	pos      int
+	trace    []choicePoint
 	maxSteps int
-	steps   int
+	steps    int
 }
 
 type choicePoint struct {
